@@ -187,3 +187,12 @@ UNITS.append(dict(UNITS[-1], name='C03.mint.wrap', role='finder', defines=['C03_
                   assumptions=['as C03.mint but WITHOUT the assumption minor < INT_MAX: names the signed overflow of next_minor_number']))
 UNITS.append(dict(UNITS[0], name='C03.dispatch.strict', role='finder', defines=['C03_STRICT_UNREGISTERED'], must_have=[],
                   assumptions=['as C03.dispatch plus the literal reading of the specification: every message of an unregistered connection that is not addressed to the bus closes it']))
+
+UNITS.append(dict(name='C03.header_setters', props=['C03', 'C12'], kind='P', route='stub', entry='harness',
+    tus=[dict(file='dbus/dbus-message.c', include_as='VERIF_TU')], harness='harness/c03_setters.c',
+    replace_calls={'_dbus_header_set_field_basic': 'verif_stub_set_field_basic', '_dbus_header_delete_field': 'verif_stub_delete_field', '_dbus_header_get_field_raw': 'verif_stub_get_field_raw'},
+    timeout=300, expect_s=5, must_have=['setter.post1', 'setter.post2'],
+    functions=[dict(name='dbus_message_set_sender/_destination/_path/_interface/_member/_error_name, set_or_delete_string_field', file='dbus/dbus-message.c', status='enforced', contract='value => one unconditional _dbus_header_set_field_basic (field, type, value); NULL => one _dbus_header_delete_field; result passed on'),
+               dict(name='_dbus_header_set_field_basic, _dbus_header_delete_field', file='dbus/dbus-marshal-header.c', status='replaced', note='contracts enforced by C12.edit.set_field / C12.edit.delete_field'),
+               dict(name='_dbus_check_is_valid_*', file='dbus/dbus-marshal-validate.c', status='stub', note='API precondition checks: TRUE (the argument is valid)')],
+    assumptions=['the value passed is valid for the field (API precondition)']))
